@@ -42,6 +42,10 @@ func run(r *core.Run) {
 		byteViews(r)
 		r.Logf("byteviews done in %v", time.Since(t0))
 	}
+	if only == "" || only == "openstack" {
+		openStack(r)
+		r.Logf("openstack done in %v", time.Since(t0))
+	}
 	if only != "" && only != "compose" {
 		return
 	}
@@ -98,6 +102,8 @@ func replay(r *core.Run, raw json.RawMessage) bool {
 			tables(sub)
 		case "ahead", "progress":
 			aheadAndProgress(sub)
+		case "openstack":
+			openStack(sub)
 		default:
 			byteViews(sub)
 		}
